@@ -65,6 +65,12 @@ check("C06", "exploration", "property-based testing (Hypothesis) with structured
       "Validity predicate only; completeness is covered by C05.",
       "DESIGN.md section 2, C06")
 
+check("C09", "exploration", "property-based testing (Hypothesis): generated universes materialised as list / file tree / configured sources, against a reference 'greatest per group' model",
+      "For generated universes with order-sensitive names and searches with '>' at any position, FindInList, FindInPaths and FindInAll are each compared with the "
+      "reference selection (group by the segments before '>', greatest remaining segment list) computed over that Finder's own data; Sid.get_last is compared with the single reference answer.",
+      "Trusted: vp/reffind.py (finder semantics incl. constants sources), vp/refsearch.py. Open known finding: FindInAll selects per source when '>' is on the project level.",
+      "DESIGN.md section 2, C09")
+
 NOT_APPLICABLE = {
 }
 
